@@ -16,7 +16,7 @@ func init() {
 	register(&Prop{
 		ID:         "C06",
 		Title:      "Condition, filter and key expressions evaluate per DynamoDB semantics",
-		Decided:    "the clauses that are visible in the shape of the code: (R1) the precedence table orders OR < AND < NOT < every comparator, NOT's operand and every infix operator's right operand are parsed at the operator's own level (left-associative), and the set of tokens with an infix handler equals the set with a precedence; (R2) in each comparator function (a switch over the operator string with the six comparator labels) the case for label c returns left ⊙ right with the Go operator that c denotes, operands in (left,right) order; (R3) BETWEEN is min <= v AND v <= max for each comparable type; (R4) exhaustiveness: Eval has a case for every node kind the condition parser can build, every registered infix token is handled, the function registry is exactly the six condition and two update functions with the right ForUpdate flags, the type-name table has the ten types and the comparable types are N, S, B; (R5) existence of an attribute is decided with the undefined test, never with the NULL type tag (a NULL-typed attribute exists); (R6) evaluating a condition reaches no object or environment mutator and never writes the caller's item; (R7) with a missing operand '=' is false and '<>' is true; (R8) two evaluator objects are compared by pointer identity only against the process-wide singletons (TRUE, FALSE, UNDEFINED) or when both are known booleans – an identity shortcut elsewhere makes two different missing operands equal and two equal numbers different; (R9) in the evaluators of IN and BETWEEN every use of the left operand's value in a comparison, equality or containment call is dominated by the not-undefined side of the undefined test of that value: a missing attribute makes the condition false, it never equals another missing attribute.",
+		Decided:    "the clauses that are visible in the shape of the code: (R1) the precedence table orders OR < AND < NOT < every comparator, NOT's operand and every infix operator's right operand are parsed at the operator's own level (left-associative), and the set of tokens with an infix handler equals the set with a precedence; (R2) in each comparator function (a switch over the operator string with the six comparator labels) the case for label c returns left ⊙ right with the Go operator that c denotes, operands in (left,right) order; (R3) BETWEEN is min <= v AND v <= max for each comparable type; (R4) exhaustiveness: Eval has a case for every node kind the condition parser can build, every registered infix token is handled, the function registry is exactly the six condition and two update functions with the right ForUpdate flags, the type-name table has the ten types and the comparable types are N, S, B; (R5) existence of an attribute is decided with the undefined test, never with the NULL type tag (a NULL-typed attribute exists); (R6) evaluating a condition reaches no object or environment mutator and never writes the caller's item; (R7) with a missing operand '=' is false and '<>' is true; (R8) two evaluator objects are compared by pointer identity only against the process-wide singletons (TRUE, FALSE, UNDEFINED) or when both are known booleans – an identity shortcut elsewhere makes two different missing operands equal and two equal numbers different; (R9) in the evaluators of IN and BETWEEN every use of the left operand's value in a comparison, equality or containment call is dominated by the not-undefined side of the undefined test of that value: a missing attribute makes the condition false, it never equals another missing attribute; (R10) the environment is filled with the stored item first and the request's expression attribute values second, in both interpreters' entry points: a stored attribute that happens to be named like a placeholder (\":owner\") cannot replace the value the request supplied; (R11) attribute_type, = and <> see the type an operand was written with only if the adapter keeps it: every member case of the SDK v2 → internal conversion applies to every value of that member and sets the member's own type field (= C10.R7b).",
 		NotDecided: "the truth value of an arbitrary expression on an arbitrary item: structural equality of documents, set semantics, IN, contains, size, begins_with results, independence from attribute order – all value-level.",
 		Rules: []RuleDef{
 			{ID: "R1", Desc: "precedence table and its use by the Pratt parser (T-TABLE)", Run: c06R1},
@@ -28,6 +28,8 @@ func init() {
 			{ID: "R7", Desc: "missing-operand semantics of = and <> (T-TABLE)", Run: c06R7},
 			{ID: "R8", Desc: "objects are compared by identity only against the singletons or when both are known booleans (T-GUARD)", Run: c06R8},
 			{ID: "R9", Desc: "IN and BETWEEN: the left operand is only compared once it is known to be defined (T-DOM)", Run: c06R9},
+			{ID: "R10", Desc: "the request's values are loaded into the environment after the item: a placeholder is never shadowed by a stored attribute of the same name (T-DOM)", Run: c06R10},
+			{ID: "R11", Desc: "an operand keeps its type on the way into the engine: every SDK member case sets its own type field for every value (= C10.R7b)", Run: aliasRule("R11", c10R7, func(c string) bool { return strings.HasPrefix(c, "v2.") })},
 		},
 	})
 }
@@ -1244,4 +1246,57 @@ func c06R9(e *Engine) {
 func isParamOf(v ssa.Value, fn *ssa.Function) bool {
 	p, ok := strip(v).(*ssa.Parameter)
 	return ok && p.Parent() == fn
+}
+
+// c06R10: Environment.AddAttributes overwrites entries of the same name. Attribute names may contain any character, so an
+// item can hold an attribute called ":owner"; the request's :owner must still be the one an expression sees. The load of
+// the item has to come before the load of the request's values on every path.
+func c06R10(e *Engine) {
+	for _, name := range []string{"Language.Match", "Language.Update"} {
+		fn := e.fn("interp", name)
+		if !e.anchor("R10", "interp."+name, fn == nil) {
+			continue
+		}
+		type load struct {
+			path []ssa.Instruction
+			kind string
+		}
+		var loads []load
+		e.walkLocal("interp", fn, 2, func(in ssa.Instruction, ctx []callCtx) {
+			c, ok := in.(*ssa.Call)
+			if !ok || c.Call.StaticCallee() == nil || c.Call.StaticCallee().Name() != "AddAttributes" || len(c.Call.Args) < 2 {
+				return
+			}
+			kind := ""
+			for _, o := range e.originsCtx(c.Call.Args[1], ctx) {
+				switch {
+				case strings.HasSuffix(o, "Input.Attributes") || strings.Contains(o, "Input.Attributes of"):
+					kind = "values"
+				case o == "fresh-map" || strings.HasSuffix(o, "Input.Item") || strings.Contains(o, "Input.Item of"):
+					if kind == "" {
+						kind = "item"
+					}
+				}
+			}
+			loads = append(loads, load{pathOf(in, ctx), kind})
+		})
+		construct := "interp." + name + ":values-loaded-after-item"
+		var item, values *load
+		for i := range loads {
+			switch loads[i].kind {
+			case "item":
+				item = &loads[i]
+			case "values":
+				values = &loads[i]
+			}
+		}
+		switch {
+		case item == nil || values == nil:
+			e.undecided("R10", construct, e.pos(fn.Pos()), "the two environment loads (item, request values) were not both found (%d loads)", len(loads))
+		case pathBefore(item.path, values.path):
+			e.pass("R10", construct, e.pos(fn.Pos()), "the item is loaded first, the request's values overwrite entries of the same name")
+		default:
+			e.fail("R10", construct, e.pos(fn.Pos()), "the request's values are not loaded after the stored item: a stored attribute named like a placeholder (\":owner\") replaces the value the request supplied, and the condition is decided on the item's own data")
+		}
+	}
 }
